@@ -1411,7 +1411,12 @@ def isunresolvable(t: tp.Any) -> bool:
         >>> isunresolvable(...)
         True
     """
-    return t in _UNRESOLVABLE
+    return (
+        t in _UNRESOLVABLE
+        or isinstance(t, tp.TypeVar)
+        # `Callable[[int], str]`, `type[int]`: nothing to build a routine from.
+        or tp.get_origin(t) in (abc_Callable, type)
+    )
 
 
 _UNRESOLVABLE = (
